@@ -10,6 +10,14 @@ from . import refmodel as R
 from .schema import PRIM_SIZE
 
 DUMP_MODES = ("ra", "tag", "cur", "curtag")
+DATA_WRITERS = [
+    "d.assign_range(b);",
+    "d.assign(b.begin(), b.end());",
+    "d.clear(); for(const auto x : b) d.push_back(static_cast<typename decltype(d)::value_type>(x));",
+    "d.resize(static_cast<typename decltype(d)::size_type>(b.size())); for(std::size_t q = 0; q < b.size(); q++) d[static_cast<typename decltype(d)::size_type>(q)] = static_cast<typename decltype(d)::value_type>(b[q]);",
+    "d.clear(); d.insert(d.end(), b.begin(), b.end());",
+]
+
 ENC_FORMS = ("named", "tag", "cur", "curtag")
 
 
@@ -259,16 +267,21 @@ class Gen:
                         "        std::size_t i = 0;\n        for(const auto e : g)\n        {\n"
                         "            sL%d_%s<typename LT::%s>(vrt::idx(%s, i), e, t);\n            ++i;\n        }\n    }"
                         % (acc, path, subs[g.name], form, g.name, path))
-            for d in level.data:
+            for di, d in enumerate(level.data):
+                # how the payload is written rotates over the ways a <data> member can be filled (per data member, form and
+                # level), so that every one of them is confronted with every length type of the corpus: whole-range
+                # assignment, iterator pair, clear + push_back per byte, resize + element writes, clear + insert at end
+                # (added after seeded change C01-5: push_back stored the new length in the promoted type)
+                wr = DATA_WRITERS[(di + ENC_FORMS.index(form) + k) % len(DATA_WRITERS)]
                 if cur:
                     dm = self.get_expr("l", d.name, "LT", form).replace("(c)", "(sbepp::cursor_ops::dont_move(c))").replace(", c)", ", sbepp::cursor_ops::dont_move(c))")
                     adv = self.get_expr("l", d.name, "LT", form)
-                    body.append("    {\n        auto d = %s;\n        auto b = t.bytes();\n        d.assign_range(b);\n        (void)%s;\n    }" % (dm, adv))
+                    body.append("    {\n        auto d = %s;\n        auto b = t.bytes();\n        %s\n        (void)%s;\n    }" % (dm, wr, adv))
                 elif form == "named":
-                    body.append("    {\n        auto d = l.%s();\n        auto b = t.bytes();\n        d.assign_range(b);\n    }" % d.name)
+                    body.append("    {\n        auto d = l.%s();\n        auto b = t.bytes();\n        %s\n    }" % (d.name, wr))
                 else:
-                    body.append("    {\n        auto d = %s;\n        auto b = t.bytes();\n        d.assign(b.begin(), b.end());\n    }"
-                                % self.get_expr("l", d.name, "LT", "tag"))
+                    body.append("    {\n        auto d = %s;\n        auto b = t.bytes();\n        %s\n    }"
+                                % (self.get_expr("l", d.name, "LT", "tag"), wr))
             sig = "const std::string& p, V l, vrt::tokens& t, Cur& c" if cur else "const std::string& p, V l, vrt::tokens& t"
             tmpl = "template<typename LT, typename V, typename Cur>" if cur else "template<typename LT, typename V>"
             unused = "(void)l; (void)p; (void)t;" + (" (void)c;" if cur else "")
